@@ -1,7 +1,7 @@
 (* C19 -- property theorems only.  Proofs live in C19/Proofs*.v. *)
 From Coq Require Import NArith List.
 From DV Require Import Base.Outcome Base.Bytes Base.Names Base.PName C19.Gen C19.Model
-  C19.ModelCmp C19.ProofsDec C19.ProofsOld C19.ProofsNew C19.ProofsAgree C19.ProofsCmp C19.ProofsCmpSound C19.ProofsCmpInv C19.ProofsRev C19.ModelEdns C19.ModelMsg C19.ProofsItems C19.ProofsEdns C19.ProofsCmpRev C19.ProofsCmpRegions C19.ProofsMsg C01.Model C05.OptModel.
+  C19.ModelCmp C19.ProofsDec C19.ProofsOld C19.ProofsNew C19.ProofsAgree C19.ProofsCmp C19.ProofsCmpSound C19.ProofsCmpInv C19.ProofsRev C19.ModelEdns C19.ModelMsg C19.ProofsItems C19.ProofsEdns C19.ProofsCmpRev C19.ProofsCmpRegions C19.ProofsMsg C19.ProofsMsgIff C01.Model C01.Model3 C05.OptModel.
 Import ListNotations.
 Local Open Scope N_scope.
 
@@ -253,3 +253,52 @@ Theorem C19_mp_item_new_to_old : forall (h c : bytes), length h = 12%nat -> wf_b
   forall sec off it off', mp_item c sec off = Ok (it, off') -> old_reads (h ++ c) (12 + off) it (12 + off').
 Proof. exact mp_item_new_to_old. Qed.
 Print Assumptions C19_mp_item_new_to_old.
+
+(* ---- round 4: MessageParser against C01's section iterators ---- *)
+(* per item, both directions: the old item parser (C01 question_parse /
+   record_parse) and MessageParser's item parser accept together, with the same
+   end; premises of old -> new: no pointer of a known class, no `0 0 41` item,
+   no OPT record *)
+Theorem C19_mp_item_iff : forall h c, length h = 12%nat -> wf_bytes c ->
+  (forall p, kclass (h ++ c) p = KNone) ->
+  (forall off, starts_with (skipn (N.to_nat off) c) edns_prefix = false) ->
+  (forall pos r, record_parse (h ++ c) pos (mlen (h ++ c)) = Ok r -> rr_type r <> 41) ->
+  forall sec off,
+  match old_parse h c sec (12 + off), mp_item c sec off with
+  | Ok e, Ok (_, off') => e = 12 + off'
+  | Err _, Err _ => True
+  | _, _ => False
+  end.
+Proof. exact item_iff. Qed.
+Print Assumptions C19_mp_item_iff.
+
+(* C01's QuestionSection / RecordSection iteration (drain over q_next / r_next)
+   and MessageParser's loop over a section of n announced items are complete
+   together, yield the same number of items and end at the same offset *)
+Theorem C19_question_section_agrees : forall h c, length h = 12%nat -> wf_bytes c ->
+  (forall p, kclass (h ++ c) p = KNone) ->
+  (forall off, starts_with (skipn (N.to_nat off) c) edns_prefix = false) ->
+  (forall pos r, record_parse (h ++ c) pos (mlen (h ++ c)) = Ok r -> rr_type r <> 41) ->
+  forall n off,
+  let s := mkSect (12 + off) (N.of_nat n) None 0 in
+  exists tr s' acc' off' ok,
+    drain (q_next (h ++ c)) (sec_fuel s) s [] = Ok (tr, s') /\
+    mp_section n c 0 off [] = Ok (acc', off', ok) /\
+    (ok = true <-> has_err tr = false) /\
+    (ok = true -> s_err s' = None /\ s_pos s' = 12 + off' /\ length tr = length acc').
+Proof. exact question_section_agrees. Qed.
+Print Assumptions C19_question_section_agrees.
+
+Theorem C19_record_section_agrees : forall h c, length h = 12%nat -> wf_bytes c ->
+  (forall p, kclass (h ++ c) p = KNone) ->
+  (forall off, starts_with (skipn (N.to_nat off) c) edns_prefix = false) ->
+  (forall pos r, record_parse (h ++ c) pos (mlen (h ++ c)) = Ok r -> rr_type r <> 41) ->
+  forall sec n off, sec <> 0 ->
+  let s := mkSect (12 + off) (N.of_nat n) None sec in
+  exists tr s' acc' off' ok,
+    drain (r_next (h ++ c)) (sec_fuel s) s [] = Ok (tr, s') /\
+    mp_section n c sec off [] = Ok (acc', off', ok) /\
+    (ok = true <-> has_err tr = false) /\
+    (ok = true -> s_err s' = None /\ s_pos s' = 12 + off' /\ length tr = length acc').
+Proof. exact record_section_agrees. Qed.
+Print Assumptions C19_record_section_agrees.
